@@ -201,6 +201,9 @@ class World:
                 raise InjectedFault(f"injected fault at action invocation {rec['i']}")
             if self.fault_kind.startswith("raise:"):
                 raise FAULT_CLASSES[self.fault_kind[6:]](f"injected fault at action invocation {rec['i']}")
+            if self.fault_kind.startswith("raise-empty:"):
+                raise {"ValueError": ValueError, "TimeoutError": asyncio.TimeoutError, "AssertionError": AssertionError,
+                       "KeyError": KeyError, "Multiline": lambda: RuntimeError("\n\nsecond line")}[self.fault_kind[12:]]()
             return True
         return False
 
